@@ -31,7 +31,8 @@
    of /repo after the C04 fix commit ([fx = true], what the correspondence runs against):
    validateDelete compared the start offset with the END pointer's length (finding F30),
    calculateEndOffset snapped to the lower stamp bound when both the domain start and the
-   target are inexact (F31), calculateStartOffset snapped to the lower stamp bound (+1) when
+   target are inexact (F31) and asked the index for a sample after the target even when the
+   domain keeps none (F34), calculateStartOffset snapped to the lower stamp bound (+1) when
    only the domain start is inexact (F32) and asked for Stamp(start, -1) when the target is
    the domain's first sample (F33).  The [fx = false] branches are kept for the refutation
    lemmas of DeleteRefuted.v.
@@ -141,7 +142,18 @@ Definition resolve_byte_offset (c : chan) (ds : Z) (idx : Z) : res Z :=
   end.
 
 (* ------------------------------------------------------------------ unary/delete.go *)
-(* calculateStartOffset: (byte offset, snapped stamp) *)
+(* unary.DB.resolveSampleCount (added by the C04 fix): sample count of the domain at ds *)
+Definition resolve_sample_count (c : chan) (ds : Z) : res Z :=
+  let '(it, ok) := di_seek_ge (doms c) (di_open (span_range ds MAXTS)) ds in
+  if negb ok then Err ENotFound else
+  match znth (c_ptrs c) (di_pos it) with
+  | Some p => Ok (domain_sample_count c p)
+  | None => Err EPanic
+  end.
+
+(* calculateStartOffset: (byte offset, snapped stamp).
+   fx = true (/repo): a target that is an exact sample is never snapped (cases 1 and 3).
+   fx = false (pinned): case 3 stamped offset-1 and took the LOWER bound + 1. *)
 Definition calc_start_offset (fx : bool) (P : list dom) (c : chan) (ds ts : Z) : res (Z * Z) :=
   do a <- distance P (TR ds ts) true;
   let so := da_hi a in
@@ -155,27 +167,27 @@ Definition calc_start_offset (fx : bool) (P : list dom) (c : chan) (ds ts : Z) :
         do b <- resolve_byte_offset c ds so; Ok (b, s_hi st + 1)
     else if negb (da_se a) then
       let so := da_lo a in
-      if fx && (so =? 0) then
+      if fx then
         do b <- resolve_byte_offset c ds so; Ok (b, ts)
       else
         do st <- stamp P ds (so - 1) true;
-        do b <- resolve_byte_offset c ds so;
-        Ok (b, (if fx then s_hi st else s_lo st) + 1)
+        do b <- resolve_byte_offset c ds so; Ok (b, s_lo st + 1)
     else
       do st <- stamp P ds (so - 1) true;
       do b <- resolve_byte_offset c ds so; Ok (b, s_hi st + 1)
   else
     do b <- resolve_byte_offset c ds so; Ok (b, ts).
 
-(* calculateEndOffset *)
-Definition calc_end_offset (fx : bool) (P : list dom) (c : chan) (ds ts : Z) : res (Z * Z) :=
+(* calculateEndOffset as pinned upstream: one Stamp call per approximation case, lower
+   bound in cases 2 and 4, no test whether any sample of the domain is kept *)
+Definition calc_end_offset_pinned (P : list dom) (c : chan) (ds ts : Z) : res (Z * Z) :=
   do a <- distance P (TR ds ts) true;
   let so := da_hi a in
   if negb (da_exact a) then
     if negb (da_se a) && negb (da_ee a) then
       let so := (da_lo a + da_hi a) ÷ 2 in
       do st <- stamp P ds so true;
-      do b <- resolve_byte_offset c ds so; Ok (b, if fx then s_hi st else s_lo st)
+      do b <- resolve_byte_offset c ds so; Ok (b, s_lo st)
     else if negb (da_se a) then
       let so := da_lo a in
       do st <- stamp P ds so true;
@@ -185,6 +197,22 @@ Definition calc_end_offset (fx : bool) (P : list dom) (c : chan) (ds ts : Z) : r
       do b <- resolve_byte_offset c ds so; Ok (b, s_lo st)
   else
     do b <- resolve_byte_offset c ds so; Ok (b, ts).
+
+(* calculateEndOffset of /repo: the sample offset is chosen by case, then the stamp is
+   snapped to the first kept sample (upper bound) only if the domain keeps a sample *)
+Definition calc_end_offset_fixed (P : list dom) (c : chan) (ds ts : Z) : res (Z * Z) :=
+  do a <- distance P (TR ds ts) true;
+  if negb (da_exact a) then
+    let so := if negb (da_se a) && negb (da_ee a) then (da_lo a + da_hi a) ÷ 2
+              else if negb (da_se a) then da_lo a else da_hi a in
+    do total <- resolve_sample_count c ds;
+    do ts' <- (if so <? total then do st <- stamp P ds so true; Ok (s_hi st) else Ok ts);
+    do b <- resolve_byte_offset c ds so; Ok (b, ts')
+  else
+    do b <- resolve_byte_offset c ds (da_hi a); Ok (b, ts).
+
+Definition calc_end_offset (fx : bool) (P : list dom) (c : chan) (ds ts : Z) : res (Z * Z) :=
+  if fx then calc_end_offset_fixed P c ds ts else calc_end_offset_pinned P c ds ts.
 
 (* ------------------------------------------------------------------ domain/delete.go *)
 Inductive vres := VSkip | VGo (so eo : Z) | VErr.
